@@ -171,7 +171,7 @@ package bug
 // author does not become an actor. Otherwise the author becomes an actor and the first comment with that
 // combined id takes the operation's text and files; no comment is added or removed.
 //@ func (*EditCommentOperation).Apply
-//@   props C10
+//@   props C10 C13
 //@   nopanic
 //@   opt commentids
 //@   requires [objects] op != nil && snapshot != nil && op.Author() != nil && (forall k int :: { snapshot.Actors[k] } 0 <= k && k < len(snapshot.Actors) ==> snapshot.Actors[k] != nil) && (forall k int :: { snapshot.Timeline[k] } 0 <= k && k < len(snapshot.Timeline) ==> snapshot.Timeline[k] != nil && (typeof(snapshot.Timeline[k]) == type[*CreateTimelineItem] ==> snapshot.Timeline[k].(*CreateTimelineItem) != nil) && (typeof(snapshot.Timeline[k]) == type[*AddCommentTimelineItem] ==> snapshot.Timeline[k].(*AddCommentTimelineItem) != nil))
